@@ -25,8 +25,38 @@ def _copy_pkg(dst_root: str) -> None:
     shutil.copytree(src, os.path.join(dst_root, PKG), ignore=ignore)
 
 
+def _transform(root: str, kind: str) -> None:
+    import ast
+
+    if kind == "unparse-all":
+        # formatting-only change of every module: comments dropped, layout normalised
+        for dp, dn, fn in os.walk(os.path.join(root, PKG)):
+            for f in fn:
+                if f.endswith(".py"):
+                    p = os.path.join(dp, f)
+                    src = open(p, encoding="utf-8").read()
+                    open(p, "w", encoding="utf-8").write(ast.unparse(ast.parse(src)) + "\n")
+    elif kind == "shift-lines":
+        # every module gets a 7-line comment header: all line numbers move
+        for dp, dn, fn in os.walk(os.path.join(root, PKG)):
+            for f in fn:
+                if f.endswith(".py"):
+                    p = os.path.join(dp, f)
+                    src = open(p, encoding="utf-8").read()
+                    fut = ""
+                    if src.startswith("from __future__"):
+                        fut, _, src = src.partition("\n")
+                        fut += "\n"
+                    open(p, "w", encoding="utf-8").write(fut + "# header\n" * 7 + src)
+    else:
+        raise ValueError(kind)
+
+
 def apply_edit(root: str, edit: dict) -> bool:
     """Apply textual replacements; returns False if an anchor snippet is absent."""
+    if edit.get("transform"):
+        _transform(root, edit["transform"])
+        return True
     for rel, old, new in edit["edits"]:
         p = os.path.join(root, rel)
         if not os.path.exists(p):
@@ -52,7 +82,7 @@ def run_edit(args) -> dict:
             return {"id": edit["id"], "status": "skipped"}
         import ast
 
-        for rel, _, _ in edit["edits"]:
+        for rel, _, _ in ([] if edit.get("transform") else edit["edits"]):
             try:
                 ast.parse(open(os.path.join(root, rel)).read())
             except SyntaxError as e:
@@ -104,7 +134,9 @@ def run_corpus(edits: list[dict], jobs: int = 16) -> list[dict]:
 def run_selftest(prop: str, seed: int = 0) -> dict:
     from .corpus import CORPUS
 
-    edits = [e for e in CORPUS if prop in e["props"]]
+    # each edit is judged under the property being checked (its other properties are
+    # exercised by their own thorough runs)
+    edits = [dict(e, props=[prop]) for e in CORPUS if prop in e["props"]]
     if not edits:
         return {"mutants": 0, "benign": 0, "note": "no corpus entries for this property"}
     # known findings are violations on the base tree too; the corpus only counts *new* ones,
